@@ -12,14 +12,14 @@ EXTENDS Unmarshal, Json
 CONSTANTS MaxFields, DoExport
 VARIABLES c
 
-PlainIdsAll == <<"f_name", "f_count", "f_flag", "f_tags", "f_items", "f_env", "f_extra", "f_anyv", "f_sub", "f_psub", "f_subs", "f_hid", "f_ratio", "f_camel">>
+PlainIdsAll == <<"f_name", "f_count", "f_flag", "f_tags", "f_items", "f_env", "f_extra", "f_anyv", "f_sub", "f_psub", "f_subs", "f_hid", "f_ratio", "f_camel", "f_nenv">>
 \* structs of three fields are drawn from the fields that interact (aliases, appends, pointers, catch-alls): the full pool cubed is out of reach
 PlainIdsCore == <<"f_name", "f_count", "f_tags", "f_items", "f_anyv", "f_psub", "f_camel">>
 PlainIds == IF MaxFields >= 3 THEN PlainIdsCore ELSE PlainIdsAll
 InlineIds == {"none", "i_map", "i_str", "i_str2"}
 \* all keys, in the fixed order documents list them
 KeyOrder == <<"name", "label", "title", "count", "n", "flag", "tags", "labels", "items", "env", "extra", "anyv", "av", "sub", "psub", "ps", "subs",
-              "hidden", "ratio", "maxRetries", "MaxRetries", "maxretries", "u1", "", "p", "q">>
+              "hidden", "ratio", "nenv", "maxRetries", "MaxRetries", "maxretries", "u1", "", "p", "q">>
 Marker(k) == Str("m:" \o k)
 SubDocs == { [t |-> "m", kv |-> <<<<"x", Str("m:x")>>, <<"y", Num("41")>>>>], [t |-> "m", kv |-> <<<<"y", Num("42")>>, <<"zz", Str("lost")>>>>] }
 \* the values a key may carry: well-typed for the field that could consume it
@@ -32,11 +32,12 @@ Vals(k) ==
       [] k \in {"tags", "labels"} -> {[t |-> "q", e |-> <<Marker(k), Str("second")>>]}
       [] k = "items" -> {[t |-> "q", e |-> <<Marker(k), Num("7"), Null>>], EmptySeq}
       [] k = "env" -> {[t |-> "m", kv |-> <<<<"A", Marker(k)>>>>], [t |-> "m", kv |-> <<<<"A", Marker(k)>>, <<"EMPTY", Null>>>>]}   \* a null inside a map of strings
+      [] k = "nenv" -> {[t |-> "m", kv |-> <<<<"a", Marker(k)>>, <<"B", Str("second")>>>>]}
       [] k = "extra" -> {[t |-> "m", kv |-> <<<<"b", Num("1")>>, <<"a", [t |-> "q", e |-> <<Marker(k)>>]>>>>]}
       [] k \in {"anyv", "av"} -> {Marker(k), [t |-> "m", kv |-> <<<<"z", Marker(k)>>, <<"a", EmptySeq>>>>]}
       [] k \in {"sub", "psub", "ps"} -> SubDocs
       [] k = "subs" -> {[t |-> "q", e |-> <<[t |-> "m", kv |-> <<<<"x", Str("m:x")>>, <<"y", Num("41")>>>>], [t |-> "m", kv |-> <<<<"y", Num("42")>>>>]>>]}   \* the second element omits x
-NullOK(k) == k \in {"name", "count", "flag", "tags", "items", "env", "extra", "anyv", "sub", "psub", "ratio", "subs",
+NullOK(k) == k \in {"nenv", "name", "count", "flag", "tags", "items", "env", "extra", "anyv", "sub", "psub", "ratio", "subs",
                     "label", "title", "n", "labels", "av", "ps"}     \* primaries, and aliases too: a null alias is still the first PRESENT alias
 Absent == [t |-> "absent"]
 States(k) == {Absent} \cup Vals(k) \cup (IF NullOK(k) THEN {Null} ELSE {})
